@@ -69,6 +69,7 @@ inductive ClientAct where
   | opOk | opRaises
   | disconnect
   | withBody (raises : Bool)      -- `async with api:` body that returns / raises
+  | foreign                       -- anything ANOTHER client object does (connect, operate, disconnect — to the same device or not)
 deriving Repr, DecidableEq
 
 /-- `connect()`.  `reclaim`: what the runtime does with the socket of an earlier connection that the client connects over
@@ -92,6 +93,7 @@ def clientStep (reclaim : Bool) (s : ClientState) : ClientAct → ClientState ×
   | .opRaises => (s, .raiseRuntimeError)
   | .disconnect => (clientDisconnect s, .ok)
   | .withBody raises => (clientDisconnect (clientConnect reclaim s), if raises then .raiseBodyError else .ok)
+  | .foreign => (s, .ok)
 
 def clientRunActs (reclaim : Bool) (s : ClientState) : List ClientAct → ClientState × List Out
   | [] => (s, [])
